@@ -154,6 +154,35 @@ func c05JudgeMem(c c05Case) (clause, detail string) {
 		return nil
 	}
 	switch c.Op {
+	case "readdir-large":
+		// a listing far beyond a megabyte (many members, long non-ASCII names): every member arrives once
+		n := 1500 + 500*c.Opt
+		long := strings.Repeat("é日", 40)
+		fs.Add(webdav.FileInfo{Path: base + "/big", IsDir: true}, "")
+		for i := 0; i < n; i++ {
+			fs.Add(webdav.FileInfo{Path: fmt.Sprintf("%s/big/%05d-%s-%s", base, i, c.Name, long), Size: int64(i), ETag: fmt.Sprintf("t%d", i), MIMEType: "text/plain"}, "")
+		}
+		l, err := cl.ReadDir(ctx, c05Arg(base, "big", c.Rel), false)
+		if err != nil {
+			return "readdir-large-error", fmt.Sprintf("%d members: %v", n, err)
+		}
+		seen := map[string]bool{}
+		for _, fi := range l {
+			if seen[fi.Path] {
+				return "readdir-large-duplicate", fi.Path
+			}
+			seen[fi.Path] = true
+			wi, ok := fs.Files[fi.Path]
+			if !ok {
+				return "readdir-unknown-path", trunc(fi.Path, 80)
+			}
+			if !fi.IsDir && (fi.Size != wi.Info.Size || fi.ETag != wi.Info.ETag) {
+				return "readdir-differs", trunc(fi.Path, 80)
+			}
+		}
+		if len(l) != n+1 {
+			return "readdir-large-scope", fmt.Sprintf("%d entries for a collection with %d members", len(l), n)
+		}
 	case "stat":
 		fi, err := cl.Stat(ctx, c05Arg(base, c.Name, c.Rel))
 		if err != nil {
@@ -175,9 +204,27 @@ func c05JudgeMem(c c05Case) (clause, detail string) {
 	case "readdir":
 		dir := "d"
 		recursive := c.Opt&1 == 1
+		fs.Reset()
 		l, err := cl.ReadDir(ctx, c05Arg(base, dir, c.Rel), recursive)
 		if err != nil {
 			return "readdir-error", err.Error()
+		}
+		// the backend is asked for exactly the named collection (no slash added, no other spelling)
+		for _, call := range fs.Snapshot() {
+			if (call.Method == "ReadDir" || call.Method == "Stat") && call.Path != base+"/d" {
+				return "readdir-wrong-name", fmt.Sprintf("backend %s(%q), want %q", call.Method, call.Path, base+"/d")
+			}
+		}
+		if c.Rel && c.Opt&1 == 0 {
+			// the empty relative name is the endpoint collection itself, not the server root
+			fs.Reset()
+			if _, err := cl.ReadDir(ctx, "", false); err == nil || base != "" {
+				for _, call := range fs.Snapshot() {
+					if call.Method == "ReadDir" && path.Clean("/"+call.Path) != path.Clean("/"+base) {
+						return "readdir-wrong-name", fmt.Sprintf("ReadDir(\"\") reached the backend as %s(%q), the endpoint collection is %q", call.Method, call.Path, base)
+					}
+				}
+			}
 		}
 		wantPaths := []string{base + "/d", base + "/d/" + c.Name, base + "/d/" + c.Name + ".dir", base + "/d/zz-bare"}
 		if recursive {
@@ -570,6 +617,10 @@ func init() {
 					}
 				}
 			}
+		}
+		// listings of several megabytes
+		for o, n := range []string{"a", "a b", "100%"} {
+			cases = append(cases, c05Case{Backend: "memfs", Endpoint: "http://h/pre/", Op: "readdir-large", Name: n, Opt: o, Rel: o == 1})
 		}
 		// every metadata value with every read call
 		for m := 0; m < nm; m++ {
